@@ -348,8 +348,10 @@ def r11_4(ctx):
     NAMES = ("move", "scale", "rotate")
     from decimal import Decimal
     # a Decimal passes the float() validation but does not mix with Fraction / float coordinates
+    # a number beyond the range of floats multiplies exact coordinates but not float ones
+    HUGE = 10 ** 400
     BAD = {"scale": [(2, "3"), ("2", 3), (2, None), (None, 2), (2, b"3"), (2, [1]), ((1, 2), 3), (Fr(1, 2), "x"),
-                     (2, Decimal("3")), (Decimal("2"), 3)],
+                     (2, Decimal("3")), (Decimal("2"), 3), (HUGE, 2), (2, HUGE), (Fr(HUGE, 3), 1)],
            "rotate": [("30",), (None,), ("30", True), ([1],), (b"1",), (Decimal("1"),)],
            "move": [("12",), (1, "2"), (("1", 2),), (None,), (1, 2, 3), ((1, None),), (1, Decimal("2")), ((Decimal("1"), 2),),
                     # one-shot iterables: consumed by the first reader (accepted as a whole, or rejected as a whole)
@@ -357,7 +359,10 @@ def r11_4(ctx):
                     lambda: (iter([3]),), lambda: (iter([3, "x"]),)]}
 
     def world():
-        pts = [[PtObj(f"p{c}{i}", _x=Fr(2 * i + 1 + 10 * c), _y=Fr(3 * i - 2 + 7 * c), is_point=True) for i in range(3)]
+        # exact and float coordinates mixed (a polygon glued to a circle arc): the second vertex of each curve is float
+        def num(v, i):
+            return float(v) if i == 1 else Fr(v)
+        pts = [[PtObj(f"p{c}{i}", _x=num(2 * i + 1 + 10 * c, i), _y=num(3 * i - 2 + 7 * c, i), is_point=True) for i in range(3)]
                for c in range(2)]
         curves = [Obj(f"j{c}", vertices=tuple(pts[c]), is_curve=True,
                       segments=tuple(Obj(f"j{c}s{i}", ctrlpoints=(pts[c][i], pts[c][(i + 1) % 3])) for i in range(3)),
@@ -407,7 +412,7 @@ def r11_4(ctx):
                 except Undecided as ex:
                     und = und or f"{name}{label or args!r}: {ex}"
                     continue
-                except (Raised, TypeError, ValueError, AttributeError, ArithmeticError, IndexError, KeyError) as ex:
+                except (Raised, TypeError, ValueError, AttributeError, ArithmeticError, IndexError, KeyError, OverflowError) as ex:
                     raised = type(ex).__name__ if not isinstance(ex, Raised) else str(ex.what)
                 if raised is None:
                     continue                   # accepted (e.g. a numeric string times an int): not a rejection
@@ -415,7 +420,7 @@ def r11_4(ctx):
                 changed = [i for i, (a, b) in enumerate(zip(before, after)) if a != b]
                 if changed and worst is None:
                     i = changed[0]
-                    worst = (f"{name}({label or args!r}) raises {raised} after {len(changed)} of {len(pts)} control points were "
+                    worst = (f"{name}({label or repr(args)[:70]}) raises {raised} after {len(changed)} of {len(pts)} control points were "
                              f"written (point {i}: {tuple(map(str, before[i]))} -> {tuple(map(str, after[i]))})")
             if worst:
                 out.bad(fn.qname, "a rejected argument leaves the figure partially transformed", where=fn.where(), detail=worst)
